@@ -44,7 +44,9 @@ def idp_endpoints(name):
     base = "https://%s.sim.example" % name
     return {"sso_redirect": base + "/sso/redirect", "sso_post": base + "/sso/post",
             "slo_soap": base + "/slo/soap", "slo_post": base + "/slo/post",
-            "slo_redirect": base + "/slo/redirect", "aa_soap": base + "/aa/soap"}
+            "slo_redirect": base + "/slo/redirect", "aa_soap": base + "/aa/soap",
+            "mni_soap": base + "/mni/soap", "nim_soap": base + "/nim/soap",
+            "aqs_soap": base + "/aq/soap", "azs_soap": base + "/pdp/soap"}
 
 
 def sp_endpoints(spec):
@@ -69,6 +71,8 @@ def base_config(spec):
                 "single_logout_service": [(ep["slo_soap"], BINDING_SOAP),
                                           (ep["slo_post"], BINDING_HTTP_POST),
                                           (ep["slo_redirect"], BINDING_HTTP_REDIRECT)],
+                "manage_name_id_service": [(ep["mni_soap"], BINDING_SOAP)],
+                "name_id_mapping_service": [(ep["nim_soap"], BINDING_SOAP)],
             },
             "policy": {"default": {"lifetime": {"minutes": 15}, "attribute_restrictions": None,
                                    "name_form": NAME_FORMAT_URI}},
@@ -94,7 +98,9 @@ def base_config(spec):
                         "aa": {"endpoints": {"attribute_service": [(ep["aa_soap"], BINDING_SOAP)]},
                                "policy": {"default": {"lifetime": {"minutes": 15},
                                                       "attribute_restrictions": None,
-                                                      "name_form": NAME_FORMAT_URI}}}},
+                                                      "name_form": NAME_FORMAT_URI}}},
+                        "aq": {"endpoints": {"authn_query_service": [(ep["aqs_soap"], BINDING_SOAP)]}},
+                        "pdp": {"endpoints": {"authz_service": [(ep["azs_soap"], BINDING_SOAP)]}}},
         }
     else:
         ep = sp_endpoints(spec)
